@@ -317,10 +317,19 @@ func c13Tiny(r *Run, st *c13Stats) error {
 		}
 	}
 	b := c13Budgets()
+	// the enumerated tiny inputs are at most some dozen bytes long: a tenth of a per cent of the
+	// general step budget is still a hundred times what they need, and a change that makes many
+	// of them spin is reported in a minute instead of a quarter of an hour
+	bt := b
+	bt.Ticks = 2_000_000
 	cases := make([]c13Case, len(inputs))
 	for i, in := range inputs {
+		bb := &b
+		if i < nTiny && len(in) < 200 {
+			bb = &bt
+		}
 		spec := simrt.WorldSpec{Files: []simrt.FileSpec{{Path: "/sim/m/main.tsh", Data: []byte(in)}, {Path: "/sim/m/x", Data: []byte("func X() {\n}\n")}, {Path: "/sim/x/tsh", Data: []byte("ELF")}},
-			Cwd: "/sim/m", Exe: "/sim/x/tsh", MapMode: "canonical", Budgets: &b}
+			Cwd: "/sim/m", Exe: "/sim/x/tsh", MapMode: "canonical", Budgets: bb}
 		cases[i] = c13Case{c: simrt.Case{World: spec, Path: "/sim/m/main.tsh", Target: []string{"bash", "batch"}[i%2]}, meta: c13Meta{Shape: "tiny", Corrupt: "enumerated", Family: "tiny-enumeration", NFiles: 1}}
 	}
 	// the operand matrix is run for both targets (converter back ends differ)
